@@ -521,7 +521,10 @@ fn check_location(op: &str, ptr: &str, position: usize, offset: usize, label: &s
         if let (Ok(o), Ok(l)) = (f[1].parse::<usize>(), f[2].parse::<usize>()) {
             let tok = toks[position];
             if tok.is_empty() {
-                out.check(l == 0 && (o == offset || o == offset + 1) && o <= ptr.len(), "C15", || {
+                // an empty span where the token's bytes would be, i.e. directly after its '/'; only when that place is the very end
+                // of the text may the span sit on the final '/' instead (what the crate does there)
+                let at_place = o == offset + 1 || (offset + 1 == ptr.len() && o == offset);
+                out.check(l == 0 && at_place && o <= ptr.len(), "C15", || {
                     format!("{op} on {ptr:?}: label ({o}, {l}) for the empty token at position {position} (offset {offset})")
                 });
             } else {
